@@ -9,9 +9,9 @@ cd $S && git apply $W/_out/patch.diff || { echo "PATCH DOES NOT APPLY"; git -C /
 go build ./... || { echo "BUILD FAILS"; git -C /repo worktree remove --force $S; exit 2; }
 go test -vet=off -count=1 ./... > /tmp/vm_$ID.test.log 2>&1; echo "suite with patch: exit $?"
 tail -3 /tmp/vm_$ID.test.log
-sh $W/_out/demo.sh $S > /tmp/vm_$ID.demo1.log 2>&1; echo "demo with patch: exit $? (want non-zero)"
+bash $W/_out/demo.sh $S > /tmp/vm_$ID.demo1.log 2>&1; echo "demo with patch: exit $? (want non-zero)"
 git -C $S checkout -- . ; 
-sh $W/_out/demo.sh $S > /tmp/vm_$ID.demo0.log 2>&1; echo "demo without patch: exit $? (want 0)"
+bash $W/_out/demo.sh $S > /tmp/vm_$ID.demo0.log 2>&1; echo "demo without patch: exit $? (want 0)"
 mkdir -p /verif/seeded/$ID && cp -r $W/_out/* /verif/seeded/$ID/
 cd / && git -C /repo worktree remove --force $S
 rm -f /tmp/vm_$ID.*.log
